@@ -389,6 +389,17 @@ func (fr *Frame) evalClauseWith(cl *Clause, lookup func(cp ClauseParam, old bool
 	}
 	res, _ := fr.evalPureOld(fn, args, st, oldVals, oldFrame)
 	fr.preState = savedPre
+	if i := strings.Index(cl.Label, "/"); i > 0 && vc.ownClause[cl] && len(vc.defScopes) == 0 {
+		// wrap in a constant of its own so that the clause can be switched off per proof group
+		vc.decls = append(vc.decls, "")
+		n := vc.freshName("cl." + mangle(cl.Label))
+		vc.decls[len(vc.decls)-1] = fmt.Sprintf("(define-fun %s () Bool %s)", n, res.T.S)
+		if vc.groupOf == nil {
+			vc.groupOf = map[string]string{}
+		}
+		vc.groupOf[n] = cl.Label[:i]
+		return Term{S: n, Sort: SBool}
+	}
 	return vc.Define("cl."+cl.Label, res.T)
 }
 
@@ -421,6 +432,29 @@ func (fr *Frame) evalClause2(cl *Clause, st *State, oldSt *State, results []Val,
 				ri = IntLit(-1)
 			}
 			return TV(Add(ri, IntLit(1)))
+		case "it_o":
+			// number of completed iterations of the enclosing range loop
+			var outer *loopInfo
+			if li != nil {
+				for _, o := range fr.loops {
+					if o != li && o.blocks[li.header] && (outer == nil || len(o.blocks) < len(outer.blocks)) {
+						outer = o
+					}
+				}
+			}
+			if outer == nil || outer.rangeIdx == nil {
+				fail("it_o used in a loop that is not nested in a range loop (%s)", cl.Label)
+			}
+			c := fr.cellOf[outer.rangeIdx]
+			if c == nil {
+				return TV(IntLit(0))
+			}
+			ri, ok := st.cells[c]
+			if !ok {
+				ri = IntLit(-1)
+			}
+			// the enclosing loop is in its (it_o+1)-th iteration: rangeindex already advanced
+			return TV(ri)
 		case "it_n":
 			if li == nil || li.rangeLen == nil {
 				fail("it_n used outside a range loop invariant (%s)", cl.Label)
@@ -650,6 +684,12 @@ func (vc *VC) specFactsOf(f *ssa.Function) *specFacts {
 	}
 	sf := &specFacts{direct: map[string]Sort{}}
 	vc.specFactCache[f] = sf
+	// An opaque spec function is uninterpreted in proofs: its body only runs in
+	// replay tests. What its value may depend on is what it is declared over —
+	// its arguments and the ghost fields its body names — not the memory its
+	// executable body happens to touch (a regexp match does not read the heap
+	// of Go strings).
+	opaque := vc.L.Opaque[originName(f)]
 	var scan func(g *ssa.Function)
 	scan = func(g *ssa.Function) {
 		if g.Blocks == nil {
@@ -660,6 +700,11 @@ func (vc *VC) specFactsOf(f *ssa.Function) *specFacts {
 		}
 		for _, b := range g.Blocks {
 			for _, ins := range b.Instrs {
+				if opaque {
+					if ci, ok := ins.(ssa.CallInstruction); !ok || ci.Common().StaticCallee() == nil || !vc.L.IsSpecFunc(ci.Common().StaticCallee()) || !strings.HasPrefix(originName(ci.Common().StaticCallee()), "ghost") {
+						continue
+					}
+				}
 				switch x := ins.(type) {
 				case *ssa.UnOp:
 					if x.Op != token.MUL {
@@ -896,9 +941,9 @@ func (vc *VC) ensureSpecDef(fn *ssa.Function, name string, heaps []string) {
 		}
 		return
 	}
-	savedWf := vc.wfCollect
-	vc.wfCollect = nil
-	defer func() { vc.wfCollect = savedWf }()
+	savedWf, savedFB := vc.wfCollect, vc.freshBase
+	vc.wfCollect, vc.freshBase = nil, Term{}
+	defer func() { vc.wfCollect, vc.freshBase = savedWf, savedFB }()
 	g := &GDef{Name: name, Ret: vc.resultSort(fn)}
 	vc.addGDef(g) // register first: recursion
 	st := &State{pure: true, reach: True, cells: map[*Cell]Term{}, heaps: map[string]Term{}, armed: map[*ssa.Defer]Term{}}
@@ -1054,11 +1099,22 @@ func (fr *Frame) intrinsic(fn *ssa.Function, args []Val, st *State, pos token.Po
 		default:
 			fail("fresh() of sort %s", a.Sort)
 		}
+		if vc.freshBase.S != "" {
+			return TV(Le(vc.freshBase, arr)), true
+		}
 		return TV(Le(vc.alloc0, arr)), true
 	case "calls":
 		return TV(vc.ghost(st, "$trace", STrace)), true
 	case "traceCall":
 		return TV(App(STrace, "tsnoc", args[0].T, args[1].T, asPtr(args[2]), asPtr(args[3]), asPtr(args[4]))), true
+	case "unchangedSinceRange":
+		// the map has the value it had when the enclosing range over it started
+		mt, ok := site.Common().Args[0].Type().Underlying().(*types.Map)
+		if !ok {
+			fail("%s: unchangedSinceRange needs a map", vc.posOf(pos))
+		}
+		mv, ms, _, _ := vc.mapGet(st, mt, args[0].T)
+		return TV(Eq(mv, vc.ghost(st, "$rangemap."+string(ms), ms))), true
 	case "visited":
 		// visited(k): key k was already produced by the enclosing range over a string-keyed map
 		return TV(Sel(vc.ghost(st, "$rangevisited", visitedSort), args[0].T, SBool)), true
@@ -1427,9 +1483,13 @@ func (fr *Frame) callByContract(rel, short string, ct *Contract, rs *types.Tuple
 		fr.raise(ps, pv, pos, "panic in "+rel)
 		st.Assume(Not(pb))
 	}
+	// fresh(x) in the callee's postcondition: allocated during this call
+	savedBase := vc.freshBase
+	vc.freshBase = a
 	for _, cl := range ct.Ensures {
 		st.Assume(fr.evalClauseWith(cl, mk(results), st, pre))
 	}
+	vc.freshBase = savedBase
 	st.reach = vc.Define("r.call", st.reach)
 	switch len(results) {
 	case 0:
